@@ -59,6 +59,16 @@ ref::TA observe(Hist& H, const Aut& a, const std::string& phase)
 	return libbdd::read(a);
 }
 
+// RemoveUnreachableStates: the bottom-up encoding documents an optional out-parameter for the states it found
+inline BDDBottomUpTreeAut unreach(const BDDBottomUpTreeAut& a, bool withSet, bool& usedSet)
+{
+	usedSet = withSet;
+	if (!withSet) return a.RemoveUnreachableStates();
+	VATA::AutBase::StateHT found;       // [out] only: handed over empty
+	return a.RemoveUnreachableStates(&found);
+}
+inline BDDTopDownTreeAut unreach(const BDDTopDownTreeAut& a, bool, bool& usedSet) { usedSet = false; return a.RemoveUnreachableStates(); }
+
 void convert_step(Hist& H, Pool<BDDBottomUpTreeAut>& P, Pool<BDDTopDownTreeAut>& TD, size_t i, const ref::TA& before, const eng::Rec& r);
 void convert_step(Hist& H, Pool<BDDTopDownTreeAut>& P, Pool<BDDTopDownTreeAut>&, size_t i, const ref::TA& before, const eng::Rec&);
 
@@ -149,7 +159,12 @@ void run_step(Hist& H, Pool<Aut>& P, Pool<BDDTopDownTreeAut>& TD, const eng::Rec
 				VATA::AutBase::StateToStateMap m1, m2;
 				VATA::AutBase::ProductTranslMap pm;
 				switch (op) {
-					case 4: res = Aut::Union(*P.h[i], *P.h[j], &m1, &m2); break;
+					case 4:
+						// both maps, or only one of the two optional ones
+						if (r[6] % 3 == 0) res = Aut::Union(*P.h[i], *P.h[j], &m1, &m2);
+						else if (r[6] % 3 == 1) res = Aut::Union(*P.h[i], *P.h[j], &m1, nullptr);
+						else res = Aut::Union(*P.h[i], *P.h[j], nullptr, &m2);
+						break;
 					case 5: res = Aut::UnionDisjointStates(*P.h[i], *P.h[j]); break;
 					case 6: res = Aut::Intersection(*P.h[i], *P.h[j], (r[6] % 2) ? &pm : nullptr); break;
 					default: res = Aut::Union(*P.h[i], *P.h[j]); break;
@@ -174,7 +189,9 @@ void run_step(Hist& H, Pool<Aut>& P, Pool<BDDTopDownTreeAut>& TD, const eng::Rec
 			H.log << H.step << ":" << enc << "." << name << "(h" << i << ") ";
 			ref::TA before = observe(H, *P.h[i], pre + name + ":dump-before");
 			Aut res;
-			{ eng::LibSection ls(H.ctx, pre + name); res = (op == 8) ? P.h[i]->RemoveUnreachableStates() : P.h[i]->RemoveUselessStates(); }
+			bool usedSet = false;
+			{ eng::LibSection ls(H.ctx, pre + name); res = (op == 8) ? unreach(*P.h[i], r[6] % 2, usedSet) : P.h[i]->RemoveUselessStates(); }
+			if (usedSet) H.opsDone.insert("RemoveUnreachableStates(&set)");
 			ref::TA d = observe(H, res, pre + name + ":dump");
 			same_language(H, pre + name, d, before, name);
 			if (op == 9) {
